@@ -255,7 +255,7 @@ def r1_call_sites(ctx):
     r.floor("C16.R1", "bins() call sites", sites, 7)
     unknown = storing - set(STORING)
     if unknown:
-        r.error("C16.R1", f"classes {sorted(unknown)} assign self.bin and have no builder in the checker: the stored-bin rule does not cover them")
+        r.error(f"C16.R1: classes {sorted(unknown)} assign self.bin and have no builder in the checker: the stored-bin rule does not cover them")
     r.floor("C16.R1", "classes that store a bin", len(storing & set(STORING)), 6)
     from ..par import pmap
     specs = [(cls, lay) for cls in sorted(STORING) for lay in R1_LAYOUTS if not (cls == "VariantInterval" and len(lay) > 1)]
